@@ -2,7 +2,8 @@ import Mouette.Model.Features
 /-
 C15, histories: `FeatureEdgeDetector.run` on a mesh / with a detector object that were used before.
 What persists between runs is modelled as state:
-  * on the mesh: the keys of the edge attribute `feature` (`none` = the attribute does not exist yet);
+  * on the mesh: the keys of the edge attribute `feature` (`none` = the attribute does not exist yet), and the face
+    attribute `normals` (written by the caller, or by `run` itself if it computes its normals persistently);
   * on the detector object: `feature_edges`, `feature_vertices` (sets), `feature_degrees` (attribute),
     the keys of `local_feat_edges` (dict).
 `run` starts with `self.clear()` and with the has_attribute / get_attribute + `.clear()` / create_attribute
@@ -14,6 +15,8 @@ namespace Mouette.Features
 structure RunFlags where
   selfClear : Bool     -- `run` starts with `self.clear()` (and `clear` re-creates the four containers)
   edgeClear : Bool     -- an existing `mesh.edges` attribute "feature" is `.clear()`ed before the passes
+  normalsPersistent : Bool  -- the normals `run` computes itself are STORED on the mesh as face attribute "normals"
+                            -- (`face_normals(mesh, persistent=True)`), where the next run finds them
 deriving Repr, Inhabited, DecidableEq
 
 /-- the detector object's containers -/
@@ -28,15 +31,23 @@ def DetState.fresh : DetState := { fe := [], fv := [], deg := [], locKeys := [] 
 
 structure RunState where
   featE : Option (List Nat)    -- keys of `mesh.edges.feature`
+  normals : Option (List (Rat × Rat))   -- face attribute "normals" on the mesh, seen through the per-edge `(d,q)` it yields
   det : DetState
 deriving Repr, Inhabited
 
-def RunState.fresh : RunState := { featE := none, det := DetState.fresh }
+def RunState.fresh : RunState := { featE := none, normals := none, det := DetState.fresh }
 
+/-- `es` carries, per edge, the `(d,q)` of the normals the caller provides for this run: those of the CURRENT
+geometry (`inj = false`), or those of a "normals" attribute the caller has just written on the mesh (`inj = true`) -/
 structure RunInput where
   onlyBorder : Bool
+  inj : Bool
   es : List EdgeInfo
 deriving Repr, Inhabited
+
+def dqOf (es : List EdgeInfo) : List (Rat × Rat) := es.map fun e => (e.d, e.q)
+def withDQ (es : List EdgeInfo) (dq : List (Rat × Rat)) : List EdgeInfo :=
+  List.zipWith (fun e x => { e with d := x.1, q := x.2 }) es dq
 
 /-- `has_attribute` ? `get_attribute` (+ `.clear()`) : `create_attribute` -/
 def openAttr (clears : Bool) : Option (List Nat) → List Nat
@@ -50,7 +61,15 @@ def flaggedFrom (th : Thresholds) (ob : Bool) (es : List EdgeInfo) (init : List 
 def addAll (s : List Nat) (xs : List Nat) : List Nat := xs.foldl (fun acc x => if acc.contains x then acc else acc ++ [x]) s
 
 /-- one `run(mesh)`; `nv` vertices -/
-def runOn (fl : RunFlags) (th : Thresholds) (nv : Nat) (st : RunState) (inp : RunInput) : RunState :=
+def runOn (fl : RunFlags) (th : Thresholds) (nv : Nat) (st : RunState) (inp0 : RunInput) : RunState :=
+  -- `if mesh.faces.has_attribute("normals"): use it  else: face_normals(mesh, persistent=…)`
+  let attr : Option (List (Rat × Rat)) := if inp0.inj then some (dqOf inp0.es) else st.normals
+  let inp : RunInput := match attr with
+    | some dq => { inp0 with es := withDQ inp0.es dq }
+    | none => inp0
+  let normals' : Option (List (Rat × Rat)) := match attr with
+    | some a => some a
+    | none => if fl.normalsPersistent then some (dqOf inp0.es) else none
   let det0 := if fl.selfClear then DetState.fresh else st.det
   let flags := flaggedFrom th inp.onlyBorder inp.es (openAttr fl.edgeClear st.featE)
   -- "Build set containers": `for e in feature: feature_edges.add(e); feature_vertices.add(A); .add(B)`
@@ -60,7 +79,7 @@ def runOn (fl : RunFlags) (th : Thresholds) (nv : Nat) (st : RunState) (inp : Ru
   -- `for v in feature_vertices: local_feat_edges[v] = [...]`, `for e in feature_edges: degrees[A] += 1 …`
   let locKeys := addAll det0.locKeys fv
   let deg := fe.foldl (degStep inp.es) det0.deg
-  { featE := some flags, det := { fe := fe, fv := fv, deg := deg, locKeys := locKeys } }
+  { featE := some flags, normals := normals', det := { fe := fe, fv := fv, deg := deg, locKeys := locKeys } }
 
 /-- a history of runs on the same mesh; `sameDet = false` = that run used another detector object, which
 leaves the final detector's containers alone (but not the mesh attribute) -/
